@@ -132,6 +132,8 @@ class HttpStreamSpec(LayerSpec):
                     out.append(("error:=",))
                 elif ch == "self.flow.response":
                     out.append(("response:=",))
+                elif ch in ("self.flow.request.stream", "self.flow.response.stream"):
+                    out.append(("stream:=", "req" if "request" in ch else "resp", getattr(node.value, "value", "?")))
         elif isinstance(node, ast.AugAssign):
             ch = attr_chain(node.target)
             if ch == "self.request_body_buf":
